@@ -49,11 +49,11 @@ Init ==
 (* enumeration of all of them (TLC!RandomElement draws afresh at every evaluation)     *)
 GenCell(mode, first) ==      \* mode 0: noise; 1: first group high; 2: second group high
   IF mode = 0 THEN RandomElement(Vals)
-  ELSE IF (mode = 1) = first THEN MaxOf(Vals) - RandomElement({0, 0, 1} \cap Vals)
+  ELSE IF (mode = 1) = first THEN MaxOf(Vals) - RandomElement({0, 1} \cap Vals)
   ELSE MinOf(Vals) + RandomElement({0, 1} \cap Vals)
 GenInput ==
   /\ Gen /\ pc = "input"
-  /\ LET mode == [e \in 1..M |-> RandomElement({0, 1, 1, 2})] IN
+  /\ LET mode == [e \in 1..M |-> RandomElement({0, 1, 2})] IN
        /\ xs' = [e \in 1..M |-> IF e \in VarSet THEN [s \in 1..NX |-> GenCell(mode[e], TRUE)]
                                  ELSE ConstX]
        /\ ys' = [e \in 1..M |-> IF e \in VarSet THEN [s \in 1..NY |-> GenCell(mode[e], FALSE)]
